@@ -6,6 +6,7 @@
   shape, every `spaces` value and all data in any field `K` (the driver runs `K = CRat`, exact complex rationals).
 -/
 import NiftyVerif.Lemmas.Field
+import NiftyVerif.Lemmas.FieldCRat
 import Mathlib.Data.Complex.Basic
 
 namespace NiftyVerif.C06
@@ -387,5 +388,46 @@ example :
     (mnorm1 (fun z => if z < 0 then -z else z) a, mnorm2Sq (fun z => z * z) a,
      mnormInf (fun x y => if x < y then y else x) (fun z => if z < 0 then -z else z) a) = (14, 50, 4) := by
   decide +kernel
+
+/-! ### the theorems apply to what the driver executes
+  `CRat` (exact complex rationals) with the core instances of Model/Field.lean is a field (Lemmas/FieldCRat.lean) and
+  `CRat.conj` a ring involution; below the Mathlib instance is switched off, so `weight`, `integrate`, … are
+  elaborated with exactly the instances `Driver/C06.lean` runs, and the general theorems still apply. -/
+section Driver
+attribute [-instance] CRat.instField
+
+theorem weight_spec_driver (f g : Fld CRat) (p : Int) (sp : Spaces) (h : weight f p sp = .ok g) :
+    ∃ l, parseSpaces sp f.subs.length = .ok l ∧ g.subs = f.subs ∧ g.dom = f.dom ∧
+      ∀ idx, g.val idx = f.val idx * prodOver l (fun ind => ipow (dvolAt f.subs ind idx) p) :=
+  @weight_spec CRat CRat.instField _ f g p sp h
+
+theorem integrate_driver (f g : Fld CRat) (sp : Spaces) (h : integrate f sp = .ok g) :
+    ∃ l, parseSpaces sp f.subs.length = .ok l ∧ g.subs = sel false (maskOf f.subs.length l) f.subs ∧
+      ∀ o, g.val o = sumOver (allIdx (sel true (maskOf f.subs.length l) f.sizes)) (fun c =>
+        f.val (merge (maskOf f.subs.length l) o c) *
+          prodOver l (fun ind => dvolAt f.subs ind (merge (maskOf f.subs.length l) o c))) :=
+  @integrate_eq_sum_weight CRat CRat.instField _ f g sp h
+
+theorem mean_driver (f m h : Fld CRat) (sp : Spaces) (V : CRat)
+    (hm : mean f sp = .ok m) (hi : integrate f sp = .ok h) (hV : totalVolume f.subs sp = .ok V)
+    (hstd : ∀ i, (f.subs.getD i default).tv = none) (hV0 : V ≠ 0) :
+    ∀ o, m.val o = h.val o * V⁻¹ :=
+  @mean_eq_integrate_div_volume CRat CRat.instField _ f m h sp V hm hi hV hstd hV0
+
+theorem var_driver (f g : Fld CRat) (sp : Spaces) (hc : f.dt = DT.complex) (h : var CRat.nsq f sp = .ok g) :
+    ∃ m l d g', mean f sp = .ok m ∧ parseSpaces sp f.subs.length = .ok l ∧
+      mean { f with dt := d, val := fun i => CRat.nsq (f.val i - m.val (sel false (maskOf f.subs.length l) i)) } sp
+        = .ok g' ∧ ∀ o, g.val o = g'.val o :=
+  @var_eq_mean_sq_dev CRat CRat.instField _ CRat.nsq f g sp (fun hne => absurd hc hne) h
+
+theorem vdot_driver (f g r : Fld CRat) (hc : f.dt = DT.complex) (h : vdot CRat.conj f g .none = .ok r) :
+    g.dom = f.dom ∧ ∀ o, r.val o = sumOver (allIdx f.sizes) (fun i => CRat.conj (f.val i) * g.val i) := by
+  obtain ⟨hd, l, hp, hfull, _, _⟩ :=
+    @vdot_partial_eq_sum CRat CRat.instField.toCommRing CRat.conj f g r .none (fun hne => absurd hc hne) h
+  simp only [parseSpaces, Except.ok.injEq] at hp
+  subst hp
+  exact ⟨hd, hfull (by simp)⟩
+
+end Driver
 
 end NiftyVerif.C06
